@@ -151,6 +151,23 @@ def r17_1(ctx):
             child = p_
         else:
             wrapped = None
+        if not wrapped:
+            # ... or the value of a local that is used once, as that argument: `let c = match kind { .. }; types.insert(c)`
+            for bid, bnd in idx_rt.binding.items():
+                init = bnd.get("init")
+                if bnd.get("kind") == "let" and not bnd.get("path") and init is not None and (init is m or strip_transparent(init) is m):
+                    uses = [x for x in idx_rt.nodes if x.get("k") == "Path" and (x.get("res") or {}).get("r") == "local" and x["res"].get("id") == bid]
+                    if len(uses) == 1:
+                        child, w = uses[0], None
+                        for p_ in idx_rt.parents(uses[0]):
+                            if p_.get("k") == "Ctor" and p_.get("variant") == "Some":
+                                w = "some"
+                            elif p_.get("k") == "MethodCall" and p_["method"] == "insert" and "IndexSet" in (strip_transparent(p_["recv"]).get("ty") or "") and any(child is strip_transparent(x) or child is x for x in p_["args"]):
+                                wrapped = w or "value"
+                                break
+                            elif p_.get("k") not in ("Block", "Ref", "Unary", "Cast"):
+                                break
+                            child = p_
         for a in m["arms"]:
             if wrapped:
                 got, rec = set(), False
